@@ -20,6 +20,7 @@ mod rr;
 mod tpflash;
 mod bubbledew;
 mod vlepure;
+mod stability;
 mod thermo;
 mod util;
 mod virial;
@@ -44,6 +45,7 @@ fn main() {
         "tpflash" => tpflash::run(&args),
         "bubbledew" => bubbledew::run(&args),
         "vlepure" => vlepure::run(&args),
+        "stability" => stability::run(&args),
         "thermo" => thermo::run(&args),
         "igcp" => igcp::run(&args),
         "equil" => equil::run(&args),
